@@ -40,9 +40,7 @@ def expectedSites : List (String × String × String × String) := [
   ("fhirpath/internal/expr", "unwrapReference", "assert", "rv.Get(…).Message(…).Interface(…).(*dtpb.ReferenceId)"),
   ("fhirpath/internal/funcs", "ToFunction", "assert", "output[…].Interface(…).(system.Collection)"),
   ("fhirpath/internal/funcs", "ToFunction", "assert", "output[…].Interface(…).(system.Collection)"),
-  ("fhirpath/internal/funcs/impl", "Now", "must", "system.MustParseDateTime(<expr>)"),
   ("fhirpath/internal/funcs/impl", "Round", "must", "system.MustParseDecimal(<expr>)"),
-  ("fhirpath/internal/funcs/impl", "TimeOfDay", "must", "system.MustParseTime(<expr>)"),
   ("fhirpath/internal/funcs/impl", "ToDecimal", "assert", "value.(system.Boolean)"),
   ("fhirpath/internal/funcs/impl", "ToDecimal", "must", "system.MustParseDecimal(\"0.0\")"),
   ("fhirpath/internal/funcs/impl", "ToDecimal", "must", "system.MustParseDecimal(\"1.0\")"),
@@ -53,7 +51,6 @@ def expectedSites : List (String × String × String × String) := [
   ("fhirpath/internal/funcs/impl", "ToQuantity", "must", "system.MustParseQuantity(<expr>)"),
   ("fhirpath/internal/funcs/impl", "ToQuantity", "must", "system.MustParseQuantity(<expr>)"),
   ("fhirpath/internal/funcs/impl", "ToQuantity", "must", "system.MustParseQuantity(<expr>)"),
-  ("fhirpath/internal/funcs/impl", "Today", "must", "system.MustParseDate(<expr>)"),
   ("fhirpath/internal/funcs/impl", "parseHumanDuration", "must", "regexp.MustCompile(`(\\d+)\\s*(\\w+)`)"),
   ("fhirpath/internal/parser", "VisitAdditiveExpression", "assert", "ctx.GetChild(…).(antlr.TerminalNode)"),
   ("fhirpath/internal/parser", "VisitAdditiveExpression", "assert", "v.Visit(…).(*VisitResult)"),
